@@ -45,6 +45,9 @@ impl<'a> Harness<'a> {
             // display_panic(&unwind);
 
             self.ctx.active.store(false, Ordering::SeqCst);
+            // a module that panicked stays down: a shutdown / restart it requested
+            // earlier in this event is dropped
+            *self.ctx.shutdown_task.write() = None;
             if !self.ctx.stereotyp.get().on_panic_catch {
                 return Err(PanicError {
                     path: self.ctx.path(),
